@@ -266,6 +266,17 @@ func parseExpr(in []byte) (Q, int, error) {
 		if subQ == nil {
 			return nil, 0, fmt.Errorf("query: '-' operator needs an argument")
 		}
+		// case: and type: are directives of the enclosing expression list, not
+		// expressions. Negating them would leave a node in the tree that nothing
+		// downstream can evaluate, print to the wire format or search.
+		switch s := subQ.(type) {
+		case *caseQ:
+			return nil, 0, fmt.Errorf("query: '-' operator cannot be applied to case:")
+		case *Type:
+			if s.Child == nil {
+				return nil, 0, fmt.Errorf("query: '-' operator cannot be applied to type:")
+			}
+		}
 		b = b[n:]
 		expr = &Not{subQ}
 
